@@ -30,6 +30,7 @@ func c02(c *eng.Ctx, r *eng.Report) {
 		"R2.10 every dispatch on the kind of a split RLP item in the trie decoder handles Byte, String and List or ends in an error. " +
 		"R2.12 the root a trie reports is the hash of its root node: every value Trie.Hash returns, and every root Trie.Commit returns with a nil error, comes out of hashRoot (which yields the empty-set root for an empty trie) — never a constant or a zero value; " +
 		"R2.13 the node store's read path has no length floor: whether a stored blob is treated as present depends only on the lookup error and on its being nil — the root node is stored under its hash however short its encoding (the force flag of R2.4), so a test like len(enc) < 32 makes small tries unreadable after a reload; " +
+		"R2.14 the node decoder and the embedded-child path agree: decodeRef hands decodeNode the remainder of the parent's buffer (the child's own bytes followed by its siblings), so decodeNode may treat bytes after the node's list as an error only if decodeRef trims what it passes to the child's size; " +
 		"R2.11 prefixLen (where insert/delete split a short node) returns a position: every value it returns after having looked at key content derives from the scan position carried round its loop, never from one comparison step alone. " +
 		"Not decided: equality of the root with the Yellow-Paper value for a given content, iterator order as such, resolution after cache eviction."
 	r.Assume = []string{"nodes are only reachable through the trie package (unexported types)"}
@@ -46,6 +47,7 @@ func c02(c *eng.Ctx, r *eng.Report) {
 	c02PrefixLen(c, r)
 	c02RootReported(c, r)
 	c02NoLengthFloor(c, r)
+	c02EmbeddedDecode(c, r)
 }
 
 func isNodePtr(t types.Type) (string, bool) {
@@ -693,6 +695,21 @@ func c02IterCursor(c *eng.Ctx, r *eng.Report) {
 			}
 		}
 	}
+	// (a') nobody else moves a cursor: seek() positions the iterator only by pushing what peek offers
+	for _, fn := range c.PkgFuncs("storage/trie") {
+		if c.IsTestFunc(fn) || fn == nc || fn == peek {
+			continue
+		}
+		for _, st := range eng.FieldStores(fn, "storage/trie.nodeIteratorState", "index") {
+			s := st.(*ssa.Store)
+			if fa, ok := s.Addr.(*ssa.FieldAddr); ok {
+				if _, fresh := fa.X.(*ssa.Alloc); fresh {
+					continue
+				}
+			}
+			why = eng.FuncName(fn) + " sets a state's cursor to " + eng.Desc(s.Val) + " (" + c.Pos(s.Pos()) + "): only the look-ahead may position a cursor, and only to (offered child − 1)"
+		}
+	}
 	r.Check(why == "" && n >= 1, rule, "nodeIterator.peek:look-ahead-only", c.Pos(nc.Pos()), "nextChild leaves the cursor one before the child it offers", "trie node iterator: "+why+fmt.Sprintf(" (%d cursor stores seen)", n)+": peeking already consumes the child, so the entry seek() stops in front of (iteration from a start key) is skipped")
 	// (b) push advances the parent's cursor by exactly one through the pointer peek handed out
 	inc := false
@@ -983,4 +1000,35 @@ func c02NoLengthFloor(c *eng.Ctx, r *eng.Report) {
 		}
 	}
 	r.Check(bad == "" && n >= 2, rule, "store-read:no-length-floor", "", "presence of a stored node depends only on the lookup error and on the blob being nil/empty", bad+": a stored node shorter than that is treated as missing, but the root node is always stored under its hash, however short (hasher.store force=true) — a trie whose root encodes to fewer bytes cannot be read back after a commit: MissingNodeError for its own root")
+}
+
+// c02EmbeddedDecode: two sites, one contract.
+func c02EmbeddedDecode(c *eng.Ctx, r *eng.Report) {
+	const rule = "R2.14"
+	r.Min(rule, 1)
+	dn := c.Func("storage/trie", "decodeNode")
+	dr := c.Func("storage/trie", "decodeRef")
+	if !r.Anchor(dn != nil && dr != nil, rule, "trie.decodeNode/decodeRef") {
+		return
+	}
+	strict := false
+	for _, call := range callsNamed(dn, "storage/rlp.SplitList") {
+		for _, ref := range *call.Referrers() {
+			if ex, ok := ref.(*ssa.Extract); ok && ex.Index == 1 && ex.Referrers() != nil && len(*ex.Referrers()) > 0 {
+				strict = true
+			}
+		}
+	}
+	trimmed := true
+	for _, s := range eng.Sites(dr) {
+		if s.Common().StaticCallee() != dn {
+			continue
+		}
+		arg := s.Common().Args[1]
+		sl, isSl := arg.(*ssa.Slice)
+		if !isSl || sl.High == nil {
+			trimmed = false
+		}
+	}
+	r.Check(!strict || trimmed, rule, "embedded-child:buffer-contract", c.Pos(dn.Pos()), fmt.Sprintf("decodeNode inspects trailing bytes=%v, decodeRef trims the child's buffer=%v", strict, trimmed), "decodeNode now looks at the bytes after the node's list while decodeRef still hands an embedded child the un-trimmed remainder of its parent's buffer: every branch with an inlined (<32-byte) child fails to decode from the store — small keys and values make the trie unreadable after a commit (mustDecodeNode panics)")
 }
